@@ -285,7 +285,7 @@ def run_check(pid, tier):
     for n, j in enumerate(jobs):
         gj = {"id": "%s-%d" % (pid, n), "package": MODULE + "/" + j["pkgdir"], "func": j["func"],
               "params": j.get("params", {}), "math": j.get("math", False), "witnesses": j.get("witnesses", 2),
-              "known_ids": known_ids, "timeout_s": j.get("timeout_s", 600 if tier == "quick" else 3000)}
+              "known_ids": known_ids, "timeout_s": max(j.get("timeout_s", 600 if tier == "quick" else 3000), 1500)}  # at least 1500 s per instance: the slowest quick instance takes ~380 s on a loaded machine
         # the Go fmt model is always available: a change to the code under test may start using fmt
         gj["models"] = dict(DEFAULT_MODELS)
         for k in ("sched", "preempt", "max_paths", "max_instrs", "unwind", "split_cap", "max_violations", "models",
